@@ -302,6 +302,28 @@ static void set_params(tjhandle tj, const spec_t *s, int with_mode)
 static unsigned char *make_icc(long n)
 { unsigned char *b = malloc(n + 1); long i; for (i = 0; i < n; i++) b[i] = (unsigned char)(i * 7 + 3); return b; }
 
+/* custom filter of tj3Transform: coefficients of maximal magnitude (8-bit data: |v| <= 1023), which
+   take the longest codes of the standard tables (16 bits beginning with 0xFF => byte stuffing) */
+static int hostile_pattern;
+static int hostile_filter(short *coeffs, tjregion arrayRegion, tjregion planeRegion, int componentID,
+                          int transformID, tjtransform *transform)
+{
+  int i, n = (arrayRegion.w / 8) * (arrayRegion.h / 8) * 64;
+  uint64_t r = 0x9E3779B97F4A7C15ULL ^ (uint64_t)(hostile_pattern * 1315423911u + componentID);
+  for (i = 0; i < n; i++) {
+    int v;
+    r ^= r << 13; r ^= r >> 7; r ^= r << 17;
+    switch (hostile_pattern & 3) {
+    case 0: v = 1023; break;
+    case 1: v = -1023; break;
+    case 2: v = (i & 1) ? 1023 : -1023; break;
+    default: v = 512 + (int)((r >> 20) % 512); if (r & 1) v = -v; break;
+    }
+    coeffs[i] = (short)((i % 64 == 0) ? ((hostile_pattern & 4) ? 1016 : 0) : v);
+  }
+  return 0;
+}
+
 /* run the operation described by s on handle tj into (*buf,*size); returns tj rc */
 static int do_op(tjhandle tj, const spec_t *s, unsigned char **buf, size_t *size)
 {
@@ -332,6 +354,7 @@ static int do_op(tjhandle tj, const spec_t *s, unsigned char **buf, size_t *size
       tj3Set(tj, TJPARAM_ARITHMETIC, (s->mode & 4) ? 1 : 0);
       tj3Set(tj, TJPARAM_LOSSLESS, 0);
       tj3Set(tj, TJPARAM_RESTARTBLOCKS, (s->mode & 16) ? 3 : 0);
+      if (s->mode & 128) { hostile_pattern = (int)(s->seed & 7); xf.customFilter = hostile_filter; }
       rc = tj3Transform(tj, src, srcsize, 1, buf, size, &xf);
     }
     free(src0);
@@ -613,6 +636,55 @@ static void run_blk(char *p)
   heap_reset();
 }
 
+/* worst-case size of a transform with ICC profiles:
+   xicc srcicc insticc savemarkers copynone getbefore op seed
+   source = 24x16 4:4:4 Q100 noise JPEG carrying an ICC profile of srcicc bytes (0 = none) and no other extra
+   marker; the transform instance has TJPARAM_SAVEMARKERS = savemarkers, tj3SetICCProfile(insticc bytes);
+   tj3DecompressHeader; [tj3GetICCProfile]; cap = tj3TransformBufSize; NOREALLOC transform into exactly cap bytes
+   (guard page behind).  Prints the ICC term of the size function and the ICC payload actually written. */
+static void run_xicc(char *p)
+{
+  long srcicc = strtol(p, &p, 10), inst = strtol(p, &p, 10); int sm = strtol(p, &p, 10), cn = strtol(p, &p, 10);
+  int getb = strtol(p, &p, 10), op = strtol(p, &p, 10); long seed = strtol(p, &p, 10);
+  int w = 24, h = 16, rc, rc2; unsigned char *img = make_image(2, w, h, 3, seed);
+  tjhandle c = tj3Init(TJINIT_COMPRESS), x = tj3Init(TJINIT_TRANSFORM), d = tj3Init(TJINIT_DECOMPRESS);
+  size_t srccap = 1 << 20, srcsize, cap, base, size, wsize = 0, outicc = 0; unsigned char *src, *src0, *icc1 = NULL, *icc2 = NULL;
+  unsigned char *buf, *ref = NULL, *chk = NULL; tjtransform xf; int dw, dh, dss; const char *st;
+  srccap += (size_t)srcicc; srcsize = srccap; src = src0 = malloc(srccap);
+  tj3Set(c, TJPARAM_QUALITY, 100); tj3Set(c, TJPARAM_SUBSAMP, TJSAMP_444);
+  if (srcicc > 0) { icc1 = make_icc(srcicc); tj3SetICCProfile(c, icc1, (size_t)srcicc); }
+  rc = tj3Compress8(c, img, w, 0, h, TJPF_RGB, &src, &srcsize);
+  if (rc || src != src0) { printf("xicc setup-failed\n"); goto done; }
+  memset(&xf, 0, sizeof xf); xf.op = op; xf.options = TJXOPT_TRIM | (cn ? TJXOPT_COPYNONE : 0);
+  tj3Set(x, TJPARAM_SAVEMARKERS, sm);
+  if (inst > 0) { icc2 = make_icc(inst); icc2[0] ^= 0x55; tj3SetICCProfile(x, icc2, (size_t)inst); }
+  if (tj3DecompressHeader(x, src, srcsize)) { printf("xicc header-failed %s\n", tj3GetErrorStr(x)); goto done; }
+  if (getb) { unsigned char *g = NULL; size_t gs = 0; tj3GetICCProfile(x, &g, &gs); tj3Free(g); }
+  cap = tj3TransformBufSize(x, &xf);
+  dw = (op == TJXOP_TRANSPOSE || op == TJXOP_TRANSVERSE || op == TJXOP_ROT90 || op == TJXOP_ROT270) ? h : w;
+  dh = (dw == w) ? h : w; dss = TJSAMP_444;
+  base = tj3JPEGBufSize(dw, dh, dss);
+  /* what the transform really writes: library-allocated run */
+  size = 0; rc = tj3Transform(x, src, srcsize, 1, &ref, &size, &xf);
+  if (rc == 0) {
+    wsize = size;
+    tj3Set(d, TJPARAM_SAVEMARKERS, 4);
+    if (tj3DecompressHeader(d, ref, size) == 0) tj3GetICCProfile(d, &chk, &outicc); else outicc = (size_t)-1;
+  }
+  if (ref) dm_free(ref, 1);
+  /* NOREALLOC into exactly cap bytes; header state as the caller left it */
+  tj3Set(x, TJPARAM_NOREALLOC, 1);
+  buf = dm_alloc(cap, 1, 0, NULL); size = cap;
+  { unsigned char *b0 = buf;
+    rc2 = tj3Transform(x, src, srcsize, 1, &buf, &size, &xf);
+    st = rc2 == 0 ? (size <= cap && buf == b0 ? "ok" : "BADSIZE") : strstr(tj3GetErrorStr(x), "too small") ? "bufsize" : "other"; }
+  printf("xicc term=%ld written=%ld total=%zu cap=%zu norealloc=%s\n", (long)cap - (long)base, (long)outicc, wsize, cap, st);
+done:
+  tj3Free(chk); free(icc1); free(icc2); free(src0); free(img);
+  tj3Destroy(c); tj3Destroy(x); tj3Destroy(d);
+  heap_reset();
+}
+
 static char line[1 << 20];
 
 int main(void)
@@ -631,7 +703,9 @@ int main(void)
     else if (!strncmp(line, "size ", 5)) {
       spec_t s; char *p = line + 5; ref_t *r;
       parse_spec(&p, &s); r = reference(&s);
-      printf("size %zu dec=%s\n", r->size, r->dec ? "ok" : "fail");
+      { size_t k, sos = 0;
+        for (k = 0; k + 3 < r->size; k++) if (r->data[k] == 0xFF && r->data[k + 1] == 0xDA) { sos = k + 2 + ((size_t)r->data[k + 2] << 8 | r->data[k + 3]); break; }
+        printf("size %zu dec=%s sos=%zu\n", r->size, r->dec ? "ok" : "fail", sos); }
       heap_reset();
     } else if (!strncmp(line, "wc ", 3)) run_wc(line + 3);
     else if (!strncmp(line, "bufsize ", 8)) {
@@ -639,6 +713,7 @@ int main(void)
       printf("bufsize %zu\n", tj3JPEGBufSize(w, h, ss));
     }
     else if (!strncmp(line, "blk ", 4)) run_blk(line + 4);
+    else if (!strncmp(line, "xicc ", 5)) { lgn = 0; run_xicc(line + 5); }
     else if (!strncmp(line, "icc ", 4)) {
       long n = strtol(line + 4, NULL, 10); spec_t s = { 1, 16, 16, TJPF_RGB, TJSAMP_420, 75, 1, 0, -1, 0 }; size_t a, b;
       a = reference(&s)->size; s.icc = n; b = reference(&s)->size;
